@@ -84,4 +84,75 @@ Proof.
   cbn [m_run]. rewrite S1. fold m1. rewrite Hm. reflexivity.
 Qed.
 
+(* ------------------------------------------------------------------ an open update is an odd generation *)
+(* the first generation store of every update carries an odd value, through the wrap and after any
+   crash/restart pattern: so "the latest generation event is the first store of an update" - the update
+   is open - is a case of the theorems above *)
+Definition OddVals (L : list event) : Prop := forall p e, ev L p = Some e -> e_kind e = KOdd -> Z.odd (e_val e) = true.
+
+Lemma OddVals_snoc L x : OddVals L -> (e_kind x = KOdd -> Z.odd (e_val x) = true) -> OddVals (L ++ [x]).
+Proof. intros A HA p e He Hk. apply ev_snoc in He as [[_ He]|[_ ->]]; [apply (A p e He Hk) | apply HA, Hk]. Qed.
+
+Lemma OddVals_init n : OddVals (init_log n).
+Proof. intros p e H K. apply init_log_ev in H as (K' & _). congruence. Qed.
+
+Lemma pre_odd g : (0 <= g < 65536)%Z -> Z.odd (pre g) = true.
+Proof.
+  intros Hg. unfold pre. destruct (Z.even g) eqn:E.
+  - assert (g <> 65535%Z) by (intros ->; discriminate).
+    rewrite Z.mod_small by lia. rewrite Z.odd_add, <- Z.negb_even, E. reflexivity.
+  - rewrite <- Z.negb_even, E. reflexivity.
+Qed.
+
+Lemma w_step_oddvals c w r k w' it : WInv3 w -> OddVals (w_log w) -> w_step c w r k = (w', it) -> OddVals (w_log w').
+Proof.
+  intros W3 A S. pose proof (W3_pc _ W3) as Hpc. unfold w_step in S.
+  destruct (w_pc w) as [| g | p | p [|i todo] |]; inversion S; subst; clear S; cbn [w_log]; try exact A.
+  - apply OddVals_snoc; [exact A|]. cbn [e_kind e_val]. intros _. apply pre_odd, Hpc.
+  - destruct (c_w_fence c); inversion H0; subst; cbn [w_log]; exact A.
+  - apply OddVals_snoc; [exact A|]. cbn [e_kind]. discriminate.
+  - apply OddVals_snoc; [exact A|]. cbn [e_kind]. discriminate.
+Qed.
+
+Lemma w_restart_oddvals c w : OddVals (w_log w) -> OddVals (w_log (w_restart c w)).
+Proof.
+  intros A. unfold w_restart. destruct (header_valid (w_log w)); cbn [w_log].
+  - apply OddVals_snoc; [exact A|]. cbn [e_kind]. discriminate.
+  - apply OddVals_snoc; [apply OddVals_init|]. cbn [e_kind]. discriminate.
+Qed.
+
+Lemma m_step_oddvals c m t m' o : MInvF c m -> OddVals (w_log (m_w m)) -> real_token t ->
+  m_step m t = (m', o) -> OddVals (w_log (m_w m')).
+Proof.
+  intros I A Ht St. pose proof (F_cfg _ _ I) as Ec. unfold m_step in St. rewrite Ec in St.
+  destruct t as [| j ch | | | | v]; try contradiction.
+  - destruct (w_step c (m_w m) _ _) as [w' [it|]] eqn:W; inversion St; subst m' o; clear St; [|exact A].
+    cbn [m_w]. apply (w_step_oddvals c _ _ _ _ _ (F_w3 _ _ I) A W).
+  - destruct (nth_error (m_rs m) j) as [r|]; [|inversion St; subst; exact A].
+    destruct (r_step c (w_log (m_w m)) r ch) as [[[r' it] ret]|]; inversion St; subst m' o; exact A.
+  - destruct (w_pc (m_w m)); inversion St; subst m' o; exact A.
+  - destruct (w_pc (m_w m)); inversion St; subst m' o; clear St; try exact A.
+    cbn [m_w]. apply w_restart_oddvals, A.
+  - destruct (header_valid (w_log (m_w m))); inversion St; subst m' o; exact A.
+Qed.
+
+Lemma m_run_oddvals c : safe_cfg c = true -> forall ts m m' o, MInvF c m -> OddVals (w_log (m_w m)) ->
+  Forall real_token ts -> m_run m ts = (m', o) -> OddVals (w_log (m_w m')).
+Proof.
+  intros Hs. induction ts as [|t ts IH]; intros m m' o I A Ht R; cbn [m_run] in R.
+  - inversion R; subst. exact A.
+  - destruct (m_step m t) as [m1 o1] eqn:S1. destruct (m_run m1 ts) as [m2 o2] eqn:R2. inversion R; subst m' o; clear R.
+    inversion Ht as [|? ? Ht1 Ht2]; subst.
+    apply (IH m1 m2 o2 (m_step_F c m t m1 o1 Hs I Ht1 S1) (m_step_oddvals c m t m1 o1 I A Ht1 S1) Ht2 R2).
+Qed.
+
+Theorem open_update_is_odd c ts m o q e : safe_cfg c = true -> Forall real_token ts ->
+  m_run (m_init c) ts = (m, o) -> ev (w_log (m_w m)) q = Some e -> e_kind e = KOdd -> Z.odd (e_val e) = true.
+Proof.
+  intros Hs Hts R Ee K.
+  assert (A0 : OddVals (w_log (m_w (m_init c)))).
+  { unfold m_init, w_init. cbn [m_w w_log]. apply OddVals_snoc; [apply OddVals_init|]. cbn [e_kind]. discriminate. }
+  exact (m_run_oddvals c Hs ts (m_init c) m o (MInvF_init c) A0 Hts R q e Ee K).
+Qed.
+
 End Gen.
